@@ -497,7 +497,10 @@ impl Driver for Overlap {
         let round = self.visits[&uid].fetch_add(1, SeqCst) as usize;
         self.arrived[p].fetch_add(1, SeqCst);
         let need = exp * (round + 1);
-        let ok = wait_until(Instant::now() + self.wait, || self.arrived[p].load(SeqCst) >= need);
+        // once one participant has given up the rendezvous of this driver is lost: nobody else
+        // needs to sit out the full wait (on a narrow pool they would do so one after the other)
+        let ok = wait_until(Instant::now() + self.wait, || self.arrived[p].load(SeqCst) >= need || self.gave_up.load(SeqCst) > 0)
+            && self.arrived[p].load(SeqCst) >= need;
         if ok {
             self.completed.fetch_add(1, SeqCst);
         } else {
